@@ -45,6 +45,10 @@ class ContractBase:
     inline = False
 
 
+class SpecError(Exception):
+    pass
+
+
 def contract(world, file, qual, props=(), module=None):
     """class decorator: register a sidecar contract for the function `qual` of `file` (relative to Python/)"""
 
@@ -72,7 +76,20 @@ def contract(world, file, qual, props=(), module=None):
         cls.load_ast = staticmethod(load_ast)
         cls.module_ast = property(lambda self: get_module_ast())
         type.__setattr__(cls, 'module_ast', _LazyModuleAst(get_module_ast))
-        world.contracts[cls.path] = cls
+        # a stub is an assumed frame some caller's proof needs; it never hides a real contract of the same function
+        # from verification: the real one stays in world.contracts (and is what other callers see), the stub is used
+        # only by the contracts of the module that declares it
+        if getattr(cls, 'stub', False):
+            if not hasattr(world, 'stubs'):
+                world.stubs = {}
+            world.stubs.setdefault(cls.path, []).append(cls)
+            if cls.path not in world.contracts:
+                world.contracts[cls.path] = cls
+        else:
+            prev = world.contracts.get(cls.path)
+            if prev is not None and not getattr(prev, 'stub', False) and prev.__module__ != cls.__module__ and prev is not cls:
+                raise SpecError('two contracts for %s (%s and %s)' % (cls.path, prev.__module__, cls.__module__))
+            world.contracts[cls.path] = cls
         return cls
     return deco
 
